@@ -13,6 +13,16 @@ class Anchor(Exception):
     """an anchor the rule pack needs is missing (fail closed)"""
 
 
+def kf_norm(key):
+    """a violation key with the NAMES of generic parameters blanked (`Gen::<A,C>::next_raw` and `Gen::<MUL,INC>::next_raw` are
+    the same function): a listed finding stays the same finding when a type or const parameter is renamed"""
+    prev = None
+    while prev != key:
+        prev = key
+        key = re.sub(r"::<[^<>]*>", "::<_>", key)
+    return key
+
+
 def load_known(pid):
     known = {}
     if not os.path.exists(KNOWN_FILE):
@@ -23,7 +33,7 @@ def load_known(pid):
             continue
         m = re.match(r"known:\s+property=(\S+)\s+key=(\S+)\s+(.*)$", line)
         if m and m.group(1) == pid:
-            known[m.group(2)] = m.group(3)
+            known[kf_norm(m.group(2))] = m.group(3)
     return known
 
 
@@ -158,8 +168,8 @@ class Check(Collector):
         known = load_known(self.pid)
         real = []
         for v in self.violations:
-            if v["key"] in known:
-                print("KNOWN-FINDING: property=%s %s [%s] %s" % (self.pid, known[v["key"]], v["key"], v["loc"]))
+            if kf_norm(v["key"]) in known:
+                print("KNOWN-FINDING: property=%s %s [%s] %s" % (self.pid, known[kf_norm(v["key"])], v["key"], v["loc"]))
                 v["known"] = True
             else:
                 real.append(v)
